@@ -344,6 +344,25 @@ pub fn n_index_roots(p: &G, root: usize) -> usize {
     max + 1
 }
 
+/// does the frozen pinned indexing scheme (reference matcher) bind the occurrence with root image r?
+pub fn reference_finds(p: &G, root: usize, hg: &PortGraph, r: usize) -> bool {
+    let pat = pattern_of(p, Some(root));
+    let Ok(cs) = pat.try_to_constraint_vec() else { return false };
+    crate::pgref::ref_single(hg, &cs).iter().any(|b| b.get(&PGIndexKey::PathRoot { index: 0 }).map(|n| n.index()) == Some(r))
+}
+
+fn indexing_class(p: &G, root: usize, hg: &PortGraph, r: usize) -> Option<&'static str> {
+    if reference_finds(p, root, hg, r) {
+        None
+    } else if has_line_cycle(p) {
+        Some("pg_line_through_root")
+    } else if n_index_roots(p, root) >= 2 {
+        Some("pg_root_hidden")
+    } else {
+        None
+    }
+}
+
 fn case_s(mode: &str, pats: &[(G, usize)], host: &G, heur: &Heur) -> String {
     sexp::l(vec![
         sexp::a("pgcase"),
@@ -385,13 +404,15 @@ pub fn eval(mode: &str, pats: &[(G, usize)], host: &G, heurs: &[Heur], o: &mut O
             let (p, root) = &pats[pi];
             let got: BTreeSet<usize> = ms.iter().filter_map(root_of).collect();
             for m in ms {
-                let r = root_of(m);
-                let ok = r.and_then(|r| embedding(p, *root, host, r)).map_or(false, |f| {
-                    let img: BTreeSet<usize> = p.live().iter().map(|u| f[*u].unwrap()).collect();
-                    let vals: BTreeSet<usize> = m.1.iter().map(|(_, n)| *n).collect();
-                    img == vals
-                });
-                if !ok {
+                let img: Option<BTreeSet<usize>> = root_of(m).and_then(|r| embedding(p, *root, host, r)).map(|f| p.live().iter().map(|u| f[*u].unwrap()).collect());
+                let vals: BTreeSet<usize> = m.1.iter().map(|(_, n)| *n).collect();
+                let vals_core: BTreeSet<usize> = m.1.iter().filter(|(k, _)| !matches!(k, PGIndexKey::PathRoot { index } if *index >= 1)).map(|(_, n)| *n).collect();
+                if img.as_ref() == Some(&vals) {
+                    continue;
+                }
+                if img.as_ref() == Some(&vals_core) {
+                    o.known_finding("pg_secondary_root_unconstrained", replay0.clone());
+                } else {
                     o.violation(format!("pg: SinglePatternMatcher reports {:?} for pattern {}, which is not an embedding of the pattern", m.1, pi), replay0.clone());
                 }
             }
@@ -400,8 +421,7 @@ pub fn eval(mode: &str, pats: &[(G, usize)], host: &G, heurs: &[Heur], o: &mut O
             }
             for r in &occ[pi] {
                 if !got.contains(r) {
-                    let class = if has_line_cycle(p) { Some("pg_line_through_root") } else if n_index_roots(p, *root) >= 2 { Some("pg_root_hidden") } else { None };
-                    match class {
+                    match indexing_class(p, *root, &hg, *r) {
                         Some(c) => o.known_finding(c, replay0.clone()),
                         None => o.violation(format!("pg: SinglePatternMatcher misses the occurrence of pattern {} with root image {}", pi, r), replay0.clone()),
                     }
@@ -445,12 +465,17 @@ pub fn eval(mode: &str, pats: &[(G, usize)], host: &G, heurs: &[Heur], o: &mut O
             "c01" => {
                 for m in &ms {
                     let (p, root) = &pats[m.0];
-                    let ok = root_of(m).and_then(|r| embedding(p, *root, host, r)).map_or(false, |f| {
-                        let img: BTreeSet<usize> = p.live().iter().map(|u| f[*u].unwrap()).collect();
-                        let vals: BTreeSet<usize> = m.1.iter().map(|(_, n)| *n).collect();
-                        img == vals && m.1.iter().all(|(_, n)| host.nodes.get(*n).map_or(false, |x| x.is_some()))
-                    });
-                    if !ok {
+                    let exist = m.1.iter().all(|(_, n)| host.nodes.get(*n).map_or(false, |x| x.is_some()));
+                    let img: Option<BTreeSet<usize>> = root_of(m).and_then(|r| embedding(p, *root, host, r)).map(|f| p.live().iter().map(|u| f[*u].unwrap()).collect());
+                    let vals: BTreeSet<usize> = m.1.iter().map(|(_, n)| *n).collect();
+                    // the same, ignoring the keys Root(i), i >= 1 (which no constraint of the pattern mentions)
+                    let vals_core: BTreeSet<usize> = m.1.iter().filter(|(k, _)| !matches!(k, PGIndexKey::PathRoot { index } if *index >= 1)).map(|(_, n)| *n).collect();
+                    if exist && img.as_ref() == Some(&vals) {
+                        continue;
+                    }
+                    if exist && img.as_ref() == Some(&vals_core) {
+                        o.known_finding("pg_secondary_root_unconstrained", replay.clone());
+                    } else {
                         o.violation(format!("pg: ManyMatcher ({}) reports {:?} for pattern {}: the bound nodes are not an injective link-preserving image of the pattern", heur.to_s(), m.1, m.0), replay.clone());
                     }
                 }
@@ -465,7 +490,7 @@ pub fn eval(mode: &str, pats: &[(G, usize)], host: &G, heurs: &[Heur], o: &mut O
                             let class = if !single_misses {
                                 // found by the baseline, lost in the automaton: known only for multi-root patterns compiled with others
                                 if n_index_roots(p, *root) >= 2 && pats.len() >= 2 { Some("pg_foreign_bindings_change_root_candidates") } else { None }
-                            } else if has_line_cycle(p) { Some("pg_line_through_root") } else if n_index_roots(p, *root) >= 2 { Some("pg_root_hidden") } else { None };
+                            } else { indexing_class(p, *root, &hg, *r) };
                             match class {
                                 Some(c) => o.known_finding(c, replay.clone()),
                                 None => o.violation(format!("pg: ManyMatcher ({}) misses the occurrence of pattern {} with root image {}", heur.to_s(), pi, r), replay.clone()),
@@ -531,10 +556,10 @@ fn gen_pats(rng: &mut Rng) -> Vec<(G, usize)> {
 pub fn run(mode: &str, tier: Tier, seed: u64, o: &mut Out) {
     let mut rng = Rng::new(seed ^ 0x9067);
     let n = match (mode, tier) {
-        ("c04", Tier::Quick) => 150,
-        ("c04", Tier::Thorough) => 4000,
-        (_, Tier::Quick) => 400,
-        (_, Tier::Thorough) => 12000,
+        ("c04", Tier::Quick) => 500,
+        ("c04", Tier::Thorough) => 8000,
+        (_, Tier::Quick) => 1500,
+        (_, Tier::Thorough) => 30000,
     };
     // corpus: self-loop root (D5), single node, portless node
     let corpus = [
@@ -580,7 +605,7 @@ pub fn replay(line: &str, mode: &str, o: &mut Out) {
 // ---------------------------------------------------------------- C11: self-occurrence and extension
 pub fn run_c11(tier: Tier, seed: u64, o: &mut Out) {
     let mut rng = Rng::new(seed ^ 0x9C11);
-    let n = if tier == Tier::Thorough { 8000 } else { 300 };
+    let n = if tier == Tier::Thorough { 40000 } else { 3000 };
     let max_steps = if tier == Tier::Thorough { 20 } else { 6 };
     for _ in 0..n {
         let p = gen_pattern(&mut rng, 5);
@@ -645,8 +670,7 @@ pub fn run_c11(tier: Tier, seed: u64, o: &mut Out) {
                 _ => false,
             };
             if !single_found || !many_found {
-                let class = if has_line_cycle(&p) { Some("pg_line_through_root") } else if n_index_roots(&p, root) >= 2 { Some("pg_root_hidden") } else { None };
-                match class {
+                match indexing_class(&p, root, &hg, r) {
                     Some(c) if !single_found => o.known_finding(c, replay.clone()),
                     _ => o.violation(format!("pg: the occurrence at root image {} is not reported after '{}' (single: {}, automaton: {})", r, what, single_found, many_found), replay.clone()),
                 }
@@ -689,7 +713,7 @@ impl Pattern for VecPattern {
 
 pub fn run_weighted(tier: Tier, seed: u64, o: &mut Out) {
     let mut rng = Rng::new(seed ^ 0x3E16);
-    let n = if tier == Tier::Thorough { 6000 } else { 300 };
+    let n = if tier == Tier::Thorough { 30000 } else { 1500 };
     for _ in 0..n {
         let p = gen_pattern(&mut rng, 4);
         let root = *rng.pick(&p.live());
@@ -779,8 +803,8 @@ pub fn run_weighted(tier: Tier, seed: u64, o: &mut Out) {
                 let base = run_single(&p, root, &hg).map_or(false, |(b, _)| b.iter().any(|m| root_of(m) == Some(*r)));
                 if base {
                     o.violation(format!("pg (weighted): the occurrence with root image {} is found without weights but lost with the hand-built weighted constraints", r), replay.clone());
-                } else if n_index_roots(&p, root) >= 2 {
-                    o.known_finding("pg_root_hidden", replay.clone());
+                } else if let Some(c) = indexing_class(&p, root, &hg, *r) {
+                    o.known_finding(c, replay.clone());
                 } else {
                     o.violation(format!("pg (weighted): the occurrence with root image {} is missed", r), replay.clone());
                 }
